@@ -2,7 +2,7 @@
 (* Stage (A) instance of AdtLayout: NK = 3 MCIN entries / auto MCNKs instead of 256, user tiles   *)
 (* with 2 MCNKs, every subset of the optional top-level kinds x 6 versions (inadmissible ones end *)
 (* in BuildReject), every subset of {MCRF, MCLQ, MCCV} as optional sub-chunks, two rebuild rounds.*)
-(* MC_AdtLayout.cfg        : the code as it is after the round-1 fix commits (deviations Pad8 and  *)
+(* MC_AdtLayout.cfg        : the code as it is after all C14 fix commits (deviations Pad8 and      *)
 (*                           MtxfAlways only) -- the strict invariants below hold                  *)
 (* MC_AdtLayout_ideal.cfg  : the format (no deviation at all)                                      *)
 (* MC_AdtLayout_legacy.cfg : the code before the fixes (all named deviations): the tolerant        *)
@@ -11,7 +11,7 @@
 (*                           switched back on; each violates the strict invariant named there       *)
 (* MC_AdtLayout_mutant.cfg : MhdrFileRelative = TRUE, must violate MhdrPointsAtNamed (hand-run)     *)
 EXTENDS AdtLayout
-CodeDeviations   == {"Pad8", "MtxfAlways", "BmeshNotMop"}
+CodeDeviations   == {"Pad8", "MtxfAlways"}
 LegacyDeviations == {"Pad8", "McinExcl", "MtxfToEof", "RefsTriple", "InjectMfbo", "MclqIncl", "MtxfAlways", "BmeshNotMop"}
 NoDeviations     == {}
 DevMcinExcl   == CodeDeviations \cup {"McinExcl"}
@@ -19,7 +19,7 @@ DevMtxfToEof  == CodeDeviations \cup {"MtxfToEof"}
 DevRefsTriple == CodeDeviations \cup {"RefsTriple"}
 DevInjectMfbo == CodeDeviations \cup {"InjectMfbo"}
 DevMclqIncl   == CodeDeviations \cup {"MclqIncl"}
-PatchedBmesh  == CodeDeviations \ {"BmeshNotMop"}
+DevBmeshNotMop == CodeDeviations \cup {"BmeshNotMop"}
 
 \* ---- strict invariants (do not consult Deviations): what the repaired code and the format satisfy
 \* no rebuilt file is longer than its predecessor (the first rebuild may shrink when the detected version
@@ -30,9 +30,8 @@ StrictMcinSize == Walked => \A j \in 1..NK : McinSizeDelta(Observed, j) = 0
 \* the parser accepts every file the serializer produced
 ParseNeverFails == apc # "parsefail"
 \* parse reports exactly the sub-chunks that were written; a rebuild carries exactly the parsed optional kinds
-\* parse reports every optional top-level kind that was written (violated by "BmeshNotMop"; hand-run
-\* MC_AdtLayout_devBmeshNotMop.cfg = code with fixes/C14-blend-mesh-marks-mop.patch applied must satisfy it,
-\* MC_AdtLayout.cfg does not list it while the deviation is in the code)
+\* parse reports every optional top-level kind that was written, except an MTXF handed to a pre-WotLK builder
+\* (never written).  Violated by "BmeshNotMop" (hand-run MC_AdtLayout_devBmeshNotMop.cfg), the code before 7ec19f1.
 ParseKeepsOpts == apc \in {"rebuild", "done"} => \A kd \in aopts \ aparse.opts : kd = "MTXF" /\ aver < WotLK
 ParseKeepsSubs == apc \in {"rebuild", "done"} => aparse.subs = SubsOf
 RebuildKeepsOpts == (around > 0 /\ apc = "MVER") => aopts = aparse.opts
